@@ -135,10 +135,14 @@ func (vc *FnVC) expandPtrKeys(keys map[string]bool) {
 		}
 		delete(keys, k)
 		s := k[5:]
+		gt := ""
+		if i := strings.Index(s, "|"); i >= 0 {
+			s, gt = s[:i], s[i+1:]
+		}
 		for name, ki := range vc.keys {
 			switch ki.Kind {
 			case "field", "cell":
-				if ki.Sort == "(Array Int "+s+")" {
+				if ki.Sort == "(Array Int "+s+")" && (ki.Kind == "cell" || gt == "" || ki.GoType == "" || ki.GoType == gt) {
 					keys[name] = true
 				}
 			case "mem":
@@ -146,12 +150,12 @@ func (vc *FnVC) expandPtrKeys(keys map[string]bool) {
 					keys[name] = true
 				}
 			case "global":
-				if ki.Sort == s {
+				if ki.Sort == s && (gt == "" || ki.GoType == "" || ki.GoType == gt) {
 					keys[name] = true
 				}
 			}
 		}
-		vc.note("store through a %s pointer of unknown origin: all known %s locations havocked", s, s)
+		vc.note("store through a *%s of unknown origin: all known locations of that type havocked", gt)
 	}
 }
 
@@ -372,7 +376,7 @@ func (vc *FnVC) mergeInto(b *ssa.BasicBlock) *State {
 	for k := range keys {
 		if vc.keys[k] == nil {
 			if ki := vc.G.keyInfo(k); ki != nil {
-				vc.key(ki.Name, ki.Sort, ki.Kind)
+				vc.keyFrom(ki)
 			}
 		}
 	}
@@ -394,6 +398,10 @@ func (vc *FnVC) mergeInto(b *ssa.BasicBlock) *State {
 		}
 		v := vc.freshVal(st, phi.Type(), phi.Name()+"."+phi.Comment)
 		vc.vals[phi] = v
+		if phi.Comment == "rangeindex" {
+			// the lowering of range-over-slice starts the index at -1 and only increments it
+			vc.assume(st, sx("<=", "(- 1)", v.S))
+		}
 		if phi.Comment != "" {
 			li.phiVals[phi.Comment] = v
 		}
@@ -539,6 +547,9 @@ func (vc *FnVC) doReturn(st *State, r *ssa.Return) {
 	env.results = rs
 	env.atReturn = true
 	for i, e := range vc.unit.Ensures {
+		if strings.HasPrefix(e.Name, "def_") {
+			continue // definitional ghost effect: assumed by callers, nothing to check in the body
+		}
 		t, err := vc.evalBool(env, e.E)
 		if err != nil {
 			vc.contractError("ensures %q: %v", e.Text, err)
@@ -546,7 +557,7 @@ func (vc *FnVC) doReturn(st *State, r *ssa.Return) {
 		}
 		vc.oblige(st, "post", clauseLabel2(e, i), t, "postcondition: "+e.Text)
 	}
-	if vc.unit.HasMod {
+	if vc.unit.HasMod && !vc.unit.ModInferred {
 		vc.frameCheck(st)
 	}
 }
@@ -1041,7 +1052,7 @@ func (vc *FnVC) havocSet(st *State, ws map[string]bool, all bool) {
 	for _, k := range sortedKeys(ws) {
 		if vc.keys[k] == nil {
 			if ki := vc.G.keyInfo(k); ki != nil {
-				vc.key(ki.Name, ki.Sort, ki.Kind)
+				vc.keyFrom(ki)
 			} else {
 				continue
 			}
